@@ -51,12 +51,24 @@ def r11_1(ctx: Ctx):
     sd = roles.solve_driver
     sd_helpers = set(roles.helpers_of(sd))
     clock = []
+    def timing_utility(f) -> bool:
+        # a small utility class of the driver's module used by the solve driver only (a stopwatch context manager):
+        # every method of the class is called from the solve driver, its helpers or the class itself
+        if f.cls is None or f.cls.module is not sd.module or f.cls is sd.cls:
+            return False
+        own = set(f.cls.methods.values())
+        return all(c is sd or c in sd_helpers or c in own
+                   for m_ in own for c in roles.callers_of(m_))
     for f, node, d in sites:
-        if d.startswith('datetime.') and (f is sd or f in sd_helpers):
+        if d.startswith('datetime.') and (f is sd or f in sd_helpers or timing_utility(f)):
             clock.append((f, node, d))
             continue
         ctx.fail(rid, f.short, f.loc(node), f'{d} is used on the search path: the trial sequence is not a function of '
                                             f'the problem and r alone', key=f'{rid}::{f.module.relpath}::{f.short}::{d}')
+    if not clock:
+        # the timing may sit in a small helper object of the driver's module (a stopwatch context manager)
+        near = [q for q in roles.reach(sd) if q in ctx.ix.funcs and ctx.ix.funcs[q].module is sd.module]
+        clock = [x for x in E.nondet_sites(ctx, near) if x[2].startswith('datetime.')]
     ctx.floor(rid, 'wall-clock reads in the solve driver (positive control)', len(clock), 1)
     # taint: the clock values reach only solvingTime
     ex = ctx.explorer(unroll=1)
@@ -100,6 +112,10 @@ def r11_1(ctx: Ctx):
                 if v is not None and is_t(v):
                     ctx.fail(rid, sd.short, sd.loc(e.node), 'a branch depends on the wall clock',
                              key=f'{rid}::{sd.short}::clock-branch')
+    if n == 0 and any(f is not sd and f not in sd_helpers for f, _, _ in clock):
+        who = sorted({f.short for f, _, _ in clock})
+        raise AnalysisError(f'{rid}: the wall clock is read inside {who} (a timing helper object of the solve driver), '
+                            f'not on the paths of {sd.short} itself; where its value flows is not decided for this form')
     ctx.floor(rid, 'paths of the solve driver reading the clock', n, 1)
 
 
